@@ -241,6 +241,12 @@ def corpus_images():
                                                                          AW.SampleFile(name="LAST", pcm=b"\x06\x00")])], size_sectors=40)], None))
     a, b, c = (AW.SampleFile(name=n, pcm=struct.pack("<2H", i, i + 1)) for i, n in enumerate(["ONE", "TWO", "THREE"]))
     out.append(("volume-table-holes", [AW.Partition([AW.Volume("FIRST", [a]), AW.Volume("THIRD", [b]), AW.Volume("LAST", [c])], size_sectors=40, slots=[0, 2, 99])], None))
+    # two and three CONSECUTIVE directory slots that are not sample files, samples before, between and after them
+    def gh(i, t):
+        return AW.SampleFile(name="GH0ST%d" % i, type_byte=t, raw_body=bytes([i + 1]) * 50)
+    sm = [AW.SampleFile(name=n, pcm=struct.pack("<3H", 10 * i, 10 * i + 1, 10 * i + 2)) for i, n in enumerate(["KICK", "HAT", "RIDE", "SNARE", "TOM"])]
+    out.append(("consecutive-non-sample-slots", [AW.Partition([AW.Volume("V", [sm[0], gh(0, 0x63), gh(1, 0xED), sm[1], gh(2, 0x00), gh(3, 0xF8), gh(4, 0x74), sm[2], sm[3], gh(5, 0x64), sm[4]])],
+                                                                 size_sectors=48)], None))
     # a volume with more files than one directory sector holds (341 entries): the directory really uses its second sector
     many = [AW.SampleFile(name="S%03d" % i, pcm=struct.pack("<2H", i, 65535 - i)) for i in range(345)]
     out.append(("directory-two-sectors", [AW.Partition([AW.Volume("BIG", many, dir_style="run"), AW.Volume("SMALL", [AW.SampleFile(name="X", pcm=b"\x01\x00")])], size_sectors=400)], None))
